@@ -70,6 +70,15 @@ func (n *Namer) Enc(v rt.Value) string {
 	return "?" + v.TypeName()
 }
 
+// EncSlice encodes each value separately.
+func (n *Namer) EncSlice(vs []rt.Value) []string {
+	parts := make([]string, len(vs))
+	for i, v := range vs {
+		parts[i] = n.Enc(v)
+	}
+	return parts
+}
+
 func (n *Namer) EncList(vs []rt.Value) string {
 	parts := make([]string, len(vs))
 	for i, v := range vs {
@@ -90,6 +99,8 @@ const (
 type Outcome struct {
 	Kind             string
 	Trace            []string // events emitted through the host callback
+	TraceV           [][]string // the same, each value encoded separately
+	RetsV            []string
 	Rets             string   // encoded return values
 	ErrVal           string   // encoded error value (LuaError) or message
 	ErrMsg           string   // err.Error()
@@ -119,9 +130,11 @@ type Sess struct {
 	R        *rt.Runtime
 	N        *Namer
 	Trace    []string
+	TraceV   [][]string
 	Out      bytes.Buffer
 	cleanup  func()
 	MaxTrace int
+	BareCall bool // Call uses rt.Call directly instead of Thread.CallContext
 }
 
 // Options for a session.
@@ -143,6 +156,7 @@ func NewSess(o Options) *Sess {
 	s.R.SetEnvGoFunc(s.R.GlobalEnv(), "emit", func(t *rt.Thread, c *rt.GoCont) (rt.Cont, error) {
 		if len(s.Trace) < s.MaxTrace {
 			s.Trace = append(s.Trace, s.N.EncList(c.Etc()))
+			s.TraceV = append(s.TraceV, s.N.EncSlice(c.Etc()))
 		}
 		return c.Next(), nil
 	}, 0, true).SolemnlyDeclareCompliance(rt.ComplyCpuSafe | rt.ComplyMemSafe | rt.ComplyTimeSafe | rt.ComplyIoSafe)
@@ -193,11 +207,30 @@ func (s *Sess) Call(f rt.Value, args []rt.Value) (out *Outcome) {
 			}
 		}
 		out.Trace = s.Trace
+		out.TraceV = s.TraceV
 		out.Reports = TakeReports()
 		out.Stdout = s.Out.String()
 	}()
 	term := rt.NewTerminationWith(nil, 0, true)
-	err := rt.Call(s.R.MainThread(), f, args, term)
+	// The embedding caller uses the protected entry point (Thread.CallContext,
+	// which is also what pcall is made of): it finalises pending to-be-closed
+	// variables of the main thread when the call ends with an error. A bare
+	// rt.Call is the unprotected primitive and leaves them pending.
+	t := s.R.MainThread()
+	var err error
+	if s.BareCall {
+		err = rt.Call(t, f, args, term)
+	} else {
+		var ctx rt.RuntimeContext
+		ctx, err = t.CallContext(rt.RuntimeContextDef{}, func() error { return rt.Call(t, f, args, term) })
+		if ctx != nil && ctx.Status() == rt.StatusKilled {
+			out.Kind = Killed
+			if err != nil {
+				out.ErrMsg = err.Error()
+			}
+			return
+		}
+	}
 	if err != nil {
 		out.Kind = LuaError
 		out.ErrMsg = err.Error()
@@ -206,6 +239,7 @@ func (s *Sess) Call(f rt.Value, args []rt.Value) (out *Outcome) {
 	}
 	out.Kind = OK
 	out.Rets = s.N.EncList(term.Etc())
+	out.RetsV = s.N.EncSlice(term.Etc())
 	return
 }
 
@@ -221,6 +255,7 @@ func (s *Sess) CallInContext(def rt.RuntimeContextDef, f rt.Value, args []rt.Val
 			out.Stack = string(debug.Stack())
 		}
 		out.Trace = s.Trace
+		out.TraceV = s.TraceV
 		out.Reports = TakeReports()
 		out.Stdout = s.Out.String()
 	}()
@@ -247,6 +282,8 @@ func (s *Sess) CallInContext(def rt.RuntimeContextDef, f rt.Value, args []rt.Val
 	default:
 		out.Kind = OK
 		out.Rets = s.N.EncList(term.Etc())
+		out.RetsV = s.N.EncSlice(term.Etc())
+	out.RetsV = s.N.EncSlice(term.Etc())
 	}
 	return
 }
